@@ -27,7 +27,7 @@
    loosened threshold in the tree under test is judged against the documented accuracy */
 #define DOC_PCACONVERGENCE 1e-10
 
-static long ncases(int tier) { return tier ? 120000 : 6000; }
+static long ncases(int tier) { return tier ? 120000 : 12000; }
 static double g_leak[32];
 
 /* n x r matrix with orthonormal columns (all orthogonal to the ones-vector when centre != 0) */
